@@ -27,7 +27,7 @@ var c18Ops = map[byte][]string{
 func c18(c *core.Check) {
 	c.Explain = "Thin: structural necessary conditions of SVG path interpretation and reference handling, decided on the syntax tree and SSA form: (R1) in pathParser.addSeg every command letter has a case, each case checks the SVG argument count of its command (M2 L2 H1 V1 C6 S4 Q4 T2 A7, Z none), every lower-case letter switches to relative coordinates before sharing its upper-case sibling's code, each command emits the path operations SVG assigns to it, Z moves the current point back to the sub-path start, and the smooth commands reflect the control point only after a command of their own family; (R2) <use> (by id and by URL) and href inheritance between definitions are cycle-guarded. The geometry itself (arc conversion, reflections, quadratic elevation, viewBox arithmetic, basic shapes) is not decided; fixed-position reads of the SVG attribute parsers are decided under C07. Also decided by symbolic folding: (R4) reflection, quadratic elevation and the ellipse parameterisation in closed form; (R5) the arc centre and radii correction of SVG F.6.5/F.6.6; (R6) rect and ellipse outlines against a recording canvas.  (R7) helpers handed one argument group read that group only; (R8) viewBox / preserveAspectRatio folded for none/meet/slice and the nine alignments."
 	p := c.Prog
-	r1 := c.Rule("R1", "pathParser.addSeg: argument count, relative/absolute pairing and emitted operations per path command are those of SVG 1.1 §8.3; Z returns the current point to the sub-path start; smooth commands reflect the previous control point only after a command of their own family", 40)
+	r1 := c.Rule("R1", "pathParser.addSeg: argument count, relative/absolute pairing and emitted operations per path command are those of SVG 1.1 §8.3; Z returns the current point to the sub-path start; smooth commands reflect the previous control point only after a command of their own family", 49)
 	fn := p.Lookup("svg.(*pathParser).addSeg")
 	body := p.Body(fn)
 	info := p.Info("svg")
@@ -333,7 +333,7 @@ func c18(c *core.Check) {
 	c18Shapes(c)
 	c18Groups(c)
 	c18ViewBox(c)
-	r3 := c.Rule("R3", "no call passes two same-typed arguments under each other's parameter names (swapped arguments): every pair of arguments named after the callee's parameters is aligned with them", 60)
+	r3 := c.Rule("R3", "no call passes two same-typed arguments under each other's parameter names (swapped arguments): every pair of arguments named after the callee's parameters is aligned with them", 95)
 	argNameRule(c, r3, "svg", nil, 90)
 }
 
@@ -612,7 +612,7 @@ func c18DrawCycles(c *core.Check, r *core.Rule) {
 // c18Attributes: a shape's field is parsed from the attribute of the same name.
 func c18Attributes(c *core.Check) {
 	p := c.Prog
-	r := c.Rule("R9", "shape attributes: in the constructors of the SVG shapes, the field F of the shape is parsed from the attribute named F whenever that attribute is present (defaults from a sibling attribute — ry from rx, rx from r — only replace a missing one); decided by replaying the emptiness tests with every attribute present", 8)
+	r := c.Rule("R9", "shape attributes: in the constructors of the SVG shapes, the field F of the shape is parsed from the attribute named F whenever that attribute is present (defaults from a sibling attribute — ry from rx, rx from r — only replace a missing one); decided by replaying the emptiness tests with every attribute present", 23)
 	n := 0
 	for _, fn := range p.FuncsOfPkg("svg") {
 		if fn.Parent() != nil || !strings.HasPrefix(fn.Name(), "new") {
